@@ -136,6 +136,32 @@ def ctor_map(cls: ast.ClassDef) -> tuple[list[str], dict[str, set[str]]]:
     return params, m
 
 
+_CLASS_NODES: dict[str, ast.ClassDef] = {}
+
+
+def method_param_attrs(cls: ast.ClassDef | None, meth: str) -> dict[str, set[str]]:
+    """parameter (in positional order, without self) -> attributes of self the method stores it in, directly:
+    self.X.append/add/extend/insert(param), self.X = param.  Empty when the method is unknown or stores nothing."""
+    if cls is None:
+        return {}
+    fn = next((m for m in cls.body if isinstance(m, ast.FunctionDef) and m.name == meth), None)
+    if fn is None or fn.args.vararg or fn.args.kwarg:
+        return {}
+    params = [x.arg for x in fn.args.posonlyargs + fn.args.args][1:]
+    out: dict[str, set[str]] = {p: set() for p in params}
+    for n in ast.walk(fn):
+        if isinstance(n, ast.Call) and isinstance(n.func, ast.Attribute) and n.func.attr in CONTAINER_MUTATORS \
+                and isinstance(n.func.value, ast.Attribute) and isinstance(n.func.value.value, ast.Name) and n.func.value.value.id == 'self':
+            for a in n.args:
+                if isinstance(a, ast.Name) and a.id in out:
+                    out[a.id].add(n.func.value.attr)
+        elif isinstance(n, ast.Assign) and isinstance(n.value, ast.Name) and n.value.id in out:
+            for t in n.targets:
+                if isinstance(t, ast.Attribute) and isinstance(t.value, ast.Name) and t.value.id == 'self':
+                    out[n.value.id].add(t.attr)
+    return out if any(out.values()) else {}
+
+
 # ------------------------------------------------------------------------------------------------ reader: data flow
 class FlowWalker(T.ParseWalker):
     """ParseWalker (which tracks which variable denotes which block and records the lookups) plus the flow of the looked-up
@@ -190,8 +216,12 @@ class FlowWalker(T.ParseWalker):
             elif isinstance(n, ast.Name) and n.id in self.alias and n.id not in self.taint:
                 pass
             elif isinstance(n, ast.Call) and ast.unparse(n.func).endswith('.parse'):
-                # a block handed to another parser: a child object
-                if any(isinstance(a, ast.Name) and a.id in self.env for a in n.args):
+                # a block handed to another parser: a child object (the block may be the variable of a comprehension that
+                # iterates over the children of a block)
+                comp_blocks = {x for c in ast.walk(e) if isinstance(c, ast.comprehension)
+                               and any(isinstance(y, ast.Name) and y.id in self.env for y in ast.walk(c.iter))
+                               for x in _binding_names(c.target)}
+                if any(isinstance(a, ast.Name) and (a.id in self.env or a.id in comp_blocks) for a in n.args):
                     callee = ast.unparse(n.func)[:-len('.parse')]
                     out.add(('<child>', self.cls if callee == 'cls' else callee))
         return out
@@ -278,6 +308,15 @@ class FlowWalker(T.ParseWalker):
             elif isinstance(f, ast.Attribute) and isinstance(f.value, ast.Name) and f.value.id == self.obj and self.obj is not None \
                     and f.attr.startswith('_parse'):
                 pass      # helper methods of the same object: analysed on their own (CLASSES lists them)
+            elif isinstance(f, ast.Attribute) and isinstance(f.value, ast.Name) and f.value.id == self.obj and self.obj is not None:
+                # a registering method of the object under construction (map_obj.add_ent(x)): what it is given flows into the
+                # attributes the method appends it to / stores it in
+                pm = method_param_attrs(_CLASS_NODES.get(self.cls), f.attr)
+                if pm:
+                    params = list(pm)
+                    for p, a in list(zip(params, n.args)) + [(k.arg, k.value) for k in n.keywords if k.arg in pm]:
+                        for attr in pm[p]:
+                            self.attr_src.setdefault(attr, set()).update(self.sources(a))
 
     def stmt(self, s: ast.stmt) -> None:
         if isinstance(s, ast.If):
@@ -331,6 +370,8 @@ class FlowWalker(T.ParseWalker):
 
 def reader_pairs(tree: ast.Module, funcs: dict[str, ast.FunctionDef], consts: dict[str, list[str]]) -> dict[str, dict[Src, set[str]]]:
     classes = _class_nodes(tree)
+    _CLASS_NODES.clear()
+    _CLASS_NODES.update(classes)
     out: dict[str, dict[Src, set[str]]] = {}
     for cname, spec in CLASSES.items():
         if cname not in classes:
@@ -506,17 +547,19 @@ def analyse_lite() -> dict:
         return k in blocks or f'editor@{b}' in blocks and k == 'editor' or T.BLOCK_ALIAS.get(k, k) in blocks
     out_r: dict[str, dict[Src, set[str]]] = {}
     child_r: dict[str, set[str]] = {}
+    child_cls: list[tuple[str, str, str]] = []       # (class, attribute, class of the child objects the reader builds)
     for c, tab in rd.items():
         out_r[c] = {}
         child_r[c] = set()
         for (b, k), v in tab.items():
             if b == '<child>':
                 child_r[c] |= v
+                child_cls += [(c, a, k) for a in sorted(v)]
             elif is_block(b, k.rstrip('*')) and not k.endswith('*'):
                 continue
             else:
                 out_r[c][(b, k)] = v
-    return {'read': out_r, 'written': wr, 'children_written': kids, 'children_read': child_r}
+    return {'read': out_r, 'written': wr, 'children_written': kids, 'children_read': child_r, 'child_classes': sorted(child_cls)}
 
 
 def _cs(s: str) -> str:
@@ -550,6 +593,10 @@ def gen_lite() -> tuple[str, dict]:
                               'read': [[b, k, sorted(v)] for (b, k), v in sorted(rd.items())],
                               'children_written': sorted(r['children_written'][c]), 'children_read': sorted(r['children_read'][c])}
     lines.append('Definition lite_classes : list liteclass := [' + '; '.join(names) + '].')
+    lines.append('(* containment edges: (class, attribute), class of the child objects its reader builds for that attribute *)')
+    lines.append('Definition lite_kid_classes : list ((string * string) * string) :=\n  [' + ';\n   '.join(
+        f'(({_cs(c)}, {_cs(a)}), {_cs(k)})' for c, a, k in r['child_classes']) + '].')
+    side['child_classes'] = [list(x) for x in r['child_classes']]
     return '\n'.join(lines) + '\n', side
 
 
